@@ -220,6 +220,13 @@ pub fn run(args: &Args) {
                 run_write(&mut t, name, "package", &canon, Mode::Interrupts(k, 2), false, &wp);
             }
         }
+        // the path-based entry point into a device that is full: whatever buffering sits in between, nothing was written
+        if std::path::Path::new("/dev/full").exists() {
+            let r = guarded(|| pkg.write_file("/dev/full"));
+            let result = match &r { Ok(Ok(())) => "ok", Ok(Err(_)) => "err", Err(_) => "panic" };
+            t.emit(json!({"event":"Run","pkg":name,"what":"write_file","mode":"dev_full","calls":0,"all_at_pos":true,
+                          "result":result,"emitted_len":0,"canonical_len":canon.len(),"sink_failed":true,"emitted_is_prefix":true}));
+        }
         // detailed per-call episodes, validated step by step by the trace specification
         if pi < 2 || thorough {
             for m in [Mode::Chunk(1), Mode::Chunk(3), Mode::Random(args.seed() + 7), Mode::Interrupts(2, 2),
